@@ -97,78 +97,78 @@ func ruleR10_1(w *World, r *Report) {
 	u := w.Client()
 	r.Rule("R10.1", "every field of the snapshot state structs is written on the path of the snapshot's UnmarshalJSON (restore) and read on the path of its MarshalJSON (capture), unless it is in the table of fields rebuilt from other captured state; every literal of a state struct on the restore path sets its BaseDatatype link", 19)
 	v := newCGView(u, w.Thorough)
-	var restoreRoots, captureRoots []*ssa.Function
-	for _, t := range []string{"counterSnapshot", "mapSnapshot", "listSnapshot", "jsonObject"} {
-		if f := u.Fn(pOrda, t, "UnmarshalJSON"); f != nil {
-			restoreRoots = append(restoreRoots, f)
-		} else {
-			r.Lost(t + ".UnmarshalJSON")
-		}
-		if f := u.Fn(pOrda, t, "MarshalJSON"); f != nil {
-			captureRoots = append(captureRoots, f)
-		} else {
-			r.Lost(t + ".MarshalJSON")
-		}
-	}
 	stop := func(f *ssa.Function) bool {
 		n := f.Name()
 		return n == "Errorf" || n == "Infof" || n == "String" || n == "L" || strings.HasPrefix(n, "New") && f.Pkg != nil && f.Pkg.Pkg.Path() == pErrors
 	}
-	restoreSet := v.reach(restoreRoots, stop)
-	captureSet := v.reach(captureRoots, stop)
-	writes, reads := map[string]bool{}, map[string]bool{}
-	for f := range restoreSet {
-		for k := range localEffects(f).Writes {
-			writes[k] = true
+	rootStructs := map[string][]string{
+		"counterSnapshot": {"counterSnapshot"},
+		"mapSnapshot":     {"mapSnapshot", "timedNode"},
+		"listSnapshot":    {"listSnapshot", "orderedNode", "timedNode"},
+		"jsonObject":      {"jsonCommon", "jsonPrimitive", "jsonObject", "jsonArray", "jsonElement", "mapSnapshot", "listSnapshot", "orderedNode"},
+	}
+	restoreSet := map[*ssa.Function]*ssa.Function{}
+	for _, root := range []string{"counterSnapshot", "mapSnapshot", "listSnapshot", "jsonObject"} {
+		uf, mf := u.Fn(pOrda, root, "UnmarshalJSON"), u.Fn(pOrda, root, "MarshalJSON")
+		if uf == nil || mf == nil {
+			r.Lost(root + ".UnmarshalJSON / MarshalJSON")
+			continue
 		}
-		for _, t := range jsonCallTypes(f, "Unmarshal") {
-			if !hasOwnJSONMethod(t, "UnmarshalJSON") || true {
+		rs := v.reach([]*ssa.Function{uf}, stop)
+		cs := v.reach([]*ssa.Function{mf}, stop)
+		for f, p := range rs {
+			restoreSet[f] = p
+		}
+		writes, reads := map[string]bool{}, map[string]bool{}
+		for f := range rs {
+			for k := range localEffects(f).Writes {
+				writes[k] = true
+			}
+			for _, t := range jsonCallTypes(f, "Unmarshal") {
 				reflectionEffects(t, writes, map[types.Type]bool{})
 			}
 		}
-	}
-	for f := range captureSet {
-		for k := range localEffects(f).Reads {
-			reads[k] = true
-		}
-		for _, t := range jsonCallTypes(f, "Marshal") {
-			reflectionEffects(t, reads, map[types.Type]bool{})
-		}
-	}
-	// timedNode is marshalled by reflection as the dynamic type behind map[string]timedType
-	if n := u.Named(pOrda, "timedNode"); n != nil {
-		for f := range captureSet {
+		for f := range cs {
+			for k := range localEffects(f).Reads {
+				reads[k] = true
+			}
 			for _, t := range jsonCallTypes(f, "Marshal") {
+				reflectionEffects(t, reads, map[types.Type]bool{})
+				// timedNode is marshalled by reflection as the dynamic type behind map[string]timedType
 				if strings.Contains(t.String(), "timedType") {
-					reflectionEffects(n, reads, map[types.Type]bool{})
+					if n := u.Named(pOrda, "timedNode"); n != nil {
+						reflectionEffects(n, reads, map[types.Type]bool{})
+					}
 				}
 			}
 		}
-	}
-	for _, sn := range snapshotStructs {
-		n := u.Named(pOrda, sn)
-		if n == nil {
-			r.Lost("snapshot struct " + sn)
-			continue
-		}
-		st := n.Underlying().(*types.Struct)
-		for i := 0; i < st.NumFields(); i++ {
-			f := st.Field(i)
-			key := sn + "." + f.Name()
-			if nn := namedOf(f.Type()); nn != nil && nn.Obj().Name() == "BaseDatatype" {
-				continue // link to the owning datatype, handled below
+		for _, sn := range rootStructs[root] {
+			n := u.Named(pOrda, sn)
+			if n == nil {
+				r.Lost("snapshot struct " + sn)
+				continue
 			}
-			if !writes[key] {
-				r.Bad(key+"/restored", u.Pos(f.Pos()), "the field is part of the snapshot state but nothing on the UnmarshalJSON path writes it: a restored replica differs from the original in this field")
-			} else {
-				r.OK(key+"/restored", u.Pos(f.Pos()), "written on the restore path")
-			}
-			if why, ok := captureDerived[key]; ok {
-				r.OK(key+"/captured", u.Pos(f.Pos()), "derived: "+why)
-			} else if !reads[key] {
-				r.Bad(key+"/captured", u.Pos(f.Pos()), "the field is part of the snapshot state but nothing on the MarshalJSON path reads it: it is lost by export")
-			} else {
-				r.OK(key+"/captured", u.Pos(f.Pos()), "read on the capture path")
+			st := n.Underlying().(*types.Struct)
+			for i := 0; i < st.NumFields(); i++ {
+				f := st.Field(i)
+				key := sn + "." + f.Name()
+				if nn := namedOf(f.Type()); nn != nil && nn.Obj().Name() == "BaseDatatype" {
+					continue // link to the owning datatype, handled below
+				}
+				// within a document, lists and maps are rebuilt by the document's own (un)marshal functions
+				cons := root + ": " + key
+				if !writes[key] {
+					r.Bad(cons+"/restored", u.Pos(f.Pos()), "the field is part of the state of a "+root+" snapshot but nothing on its UnmarshalJSON path writes it: a restored replica differs from the original in this field")
+				} else {
+					r.OK(cons+"/restored", u.Pos(f.Pos()), "written on the restore path")
+				}
+				if why, ok := captureDerived[key]; ok {
+					r.OK(cons+"/captured", u.Pos(f.Pos()), "derived: "+why)
+				} else if !reads[key] {
+					r.Bad(cons+"/captured", u.Pos(f.Pos()), "the field is part of the state of a "+root+" snapshot but nothing on its MarshalJSON path reads it: it is lost (or replaced by something else) on export")
+				} else {
+					r.OK(cons+"/captured", u.Pos(f.Pos()), "read on the capture path")
+				}
 			}
 		}
 	}
